@@ -87,10 +87,11 @@ PROPS = {
 }
 PROPS["C11"] = {
     "streams": [S("corrupt", 400, 20000, vm=(16, 200), vm_maxlen=5000), S("openfail", 28, 280, vm=(0, 0)),
-                S("codec", 800, 30000, vm=(20, 200)), S("dumplogs", 150, 4000, vm=(5, 60), vm_maxlen=6000)],
+                S("codec", 800, 30000, vm=(20, 200)), S("dumplogs", 150, 4000, vm=(5, 60), vm_maxlen=6000),
+                S("metafuzz", 500, 15000, vm=(0, 0))],
     "trusted": [GO, BBOLT],
     "assumptions": ["'nothing locked or open after a failed Open', 'never hangs' and the allocation bound of the Go code are observed (watchdog, runtime.MemStats), not proved; the model proves termination (fuel bound) and allocation bounds of its own explicit accounting"],
-    "rule": "corrupt: valid tails and sealed files damaged by bit flips, 8-byte splices, truncation at any offset, length-field edits (0xffffffff, MaxEntrySize+1, small), zero runs, frame-type bytes; then recovery or sealed open, reads, dump - outcome kind and recovered entries compared with the model, watchdog + allocation measurement; dumplogs: directories of several segment files built by the real WAL (small segments, appends, head/tail truncations), a third of them damaged (bit flips, cuts, zeroed headers, huge length fields, garbage tails, left-over generations, a misnamed *.wal file), Filer.DumpLogs with windows over after/before compared entry by entry with the model, watchdog + allocation measurement; openfail: 7 kinds of damage to real directories (missing / short / zeroed / bad-magic / swapped-header sealed segment, garbage metadata record, foreign codec), Open must fail, a second Open in the same process must not block and, damage undone, must present the original log; codec: malformed encodings (7 mutation kinds) must yield errors, never panics",
+    "rule": "corrupt: valid tails and sealed files damaged by bit flips, 8-byte splices, truncation at any offset, length-field edits (0xffffffff, MaxEntrySize+1, small), zero runs, frame-type bytes; then recovery or sealed open, reads, dump - outcome kind and recovered entries compared with the model, watchdog + allocation measurement; dumplogs: directories of several segment files built by the real WAL (small segments, appends, head/tail truncations), a third of them damaged (bit flips, cuts, zeroed headers, huge length fields, garbage tails, left-over generations, a misnamed *.wal file), Filer.DumpLogs with windows over after/before compared entry by entry with the model, watchdog + allocation measurement; metafuzz (implementation only): directories written by the real WAL whose stored metadata record is edited while staying decodable (a field of a SegmentInfo or NextSegmentID set to 0 / off by one / huge / a neighbour's value, seal flag flipped, segments dropped, duplicated, swapped), then Open, First/LastIndex, GetLog around every index that ever existed, an append, truncations and Close under a watchdog with panic capture and allocation measurement; openfail: 7 kinds of damage to real directories (missing / short / zeroed / bad-magic / swapped-header sealed segment, garbage metadata record, foreign codec), Open must fail, a second Open in the same process must not block and, damage undone, must present the original log; codec: malformed encodings (7 mutation kinds) must yield errors, never panics",
 }
 
 VFY_TRUSTED = [GO, "github.com/segmentio/fasthash/fnv1a -- modelled (Base/Fnv.v) and differentially tested: every sum in every report is an observable of the vfy stream",
